@@ -250,3 +250,36 @@ Example garbage_then_valid :
   /\ arrival_op (tab_cid_no ct) (tab_peer_decode []%list) (tab_addr_parse at_) 3 AllowAll 9 good
      = Some (ODirect true {| a_cid := 77; a_peer := 9; a_addrs := [(4%N, false)]%list |} false).
 Proof. vm_compute. split; reflexivity. Qed.
+
+(* ------------------------------------------------------------------ *)
+(* 4. the duplicate filter is keyed by the CID, not by its multihash      *)
+
+Section DistinctCids.
+Variable cid_no : cid -> N.
+Hypothesis cid_no_injective : forall a b, cid_no a = cid_no b -> a = b.
+
+(* whatever CIDs were seen: a CID that is not among them is not a duplicate, however
+   much it shares with them (digest, multihash, codec) *)
+Theorem unseen_cid_is_delivered cf s (seen : list cid) (c : cid) a :
+  closed s = false -> out s = None ->
+  lru s = map cid_no seen -> ~ In c seen -> a_cid a = cid_no c ->
+  exists s', seq_step cf s (ODirect true a false) = [(RNil, s')]
+    /\ out s' = Some (filter_addrs cf a).
+Proof.
+  intros Hc Ho Hl Hn Ha.
+  destruct (P09.deliver_iff_lemma cf s true a Hc Ho) as (s' & E & D & _).
+  exists s'. split; [exact E|]. apply D. split; [reflexivity|].
+  apply P09.memN_false. rewrite Hl, Ha. intro Hin. apply in_map_iff in Hin as (x & Hx & Hin).
+  apply cid_no_injective in Hx. subst x. contradiction.
+Qed.
+
+End DistinctCids.
+
+(* the CIDv0 and the CIDv1/dag-pb form of one sha2-256 digest: one multihash (the v1 bytes
+   are the two bytes "version 1, codec dag-pb" followed by the v0 bytes), two CIDs *)
+Example same_multihash_two_cids :
+  let d := nrep 32 7 in
+  skipn 2 (Cid.fmt (CidV1 112 18 d)) = Cid.fmt (CidV0 d)
+  /\ CidV1 112 18 d <> CidV0 d /\ CidV1 112 18 d <> CidV1 85 18 d
+  /\ cid_eqb (CidV1 112 18 d) (CidV0 d) = false /\ cid_eqb (CidV1 113 18 d) (CidV1 85 18 d) = false.
+Proof. vm_compute. repeat split; discriminate. Qed.
